@@ -306,6 +306,11 @@ def run(P, R):
                 (cname, sorted(map(str, d)), own))
     from .c05 import rule_conflict_scan
     rule_conflict_scan(P, R, r7)
+    # re-election makes progress only if a Master that left RUNNING is forgotten (same obligations as C01.R3), and a
+    # peer that comes back is only reachable again if the broken ServerProxy was dropped
+    from .c01 import rule_master
+    rule_master(P, R, r7)
+    shared.proxy_renewed_on_failure(P, R, r7)
 
     # ---------------------------------------------------------------- R8
     r8 = R.rule('R8', 'must-call under fact', 'no start or stop job stays pending on a lost instance: both _common_next '
